@@ -233,7 +233,8 @@ pub fn oracle_true_digests(sub: &str, x: &[u8], rank: u64, case: &dyn Fn() -> Va
                         };
                         let ty = modes[i] & 0o170000;
                         // regular files always; entries of no known type when they carry content or a digest
-                        let judged = ty == 0o100000 || (ty != 0o040000 && ty != 0o120000 && (!data.is_empty() || !digests[i].is_empty()));
+                        // and any entry, whatever its type, that records a digest at all
+                        let judged = ty == 0o100000 || !digests[i].is_empty() || (ty != 0o040000 && ty != 0o120000 && !data.is_empty());
                         if judged && digests[i] != sha256_hex(data).as_bytes() {
                             bad("file-digest", format!("digest of file {} ({}) is not the SHA-256 of its archived content", i, String::from_utf8_lossy(&names[i])));
                         }
@@ -485,8 +486,122 @@ fn source_rewrite_sub(ctx: &Ctx) -> SubReport {
     )
 }
 
+/// Entries of every kind built from sources that do have content, and signing an object whose recorded header digest is stale.
+fn typed_and_stale_sub(ctx: &Ctx) -> SubReport {
+    let env = Env::new(&ctx.repo, "c08t");
+    let mut acc = Acc::new();
+    // (a) every kind of entry × source with / without content × compression × layout
+    let kinds: Vec<(&str, ModeSpec, Vec<&'static str>)> = vec![
+        ("regular", ModeSpec::Regular(0o644), vec![]),
+        ("symbolic link", ModeSpec::Symlink(0o777), vec![]),
+        ("directory", ModeSpec::Dir(0o755), vec![]),
+        ("mode without type bits", ModeSpec::Raw(0o600), vec![]),
+        ("fifo mode", ModeSpec::Raw(0o010644), vec![]),
+        ("ghost", ModeSpec::Regular(0o644), vec!["ghost"]),
+        ("config", ModeSpec::Regular(0o644), vec!["config"]),
+    ];
+    let mut idx = 0u64;
+    for (kname, mode, flags) in &kinds {
+        for content in [Content::Bytes(vec![]), Content::Bytes(b"hello".to_vec()), Content::Noise(4097)] {
+            for comp in [Comp::None, Comp::Gzip(6), Comp::Default] {
+                for large in [false, true] {
+                    idx += 1;
+                    acc.evals += 1;
+                    let mut s = BuildSpec::minimal();
+                    s.name = "typed".into();
+                    s.compression = comp;
+                    s.large_files = large;
+                    let mut f = FileSpec::new("/t/entry", content.clone());
+                    f.mode = mode.clone();
+                    f.flags = flags.clone();
+                    if matches!(mode, ModeSpec::Symlink(_)) {
+                        f.symlink = Some("target".into());
+                    }
+                    s.files = vec![FileSpec::new("/t/before", Content::Bytes(b"b".to_vec())), f, FileSpec::new("/t/zz-after", Content::Bytes(b"after".to_vec()))];
+                    let case = || json!({"entry_kind": kname, "source_bytes": content.len(), "spec": s.to_json()});
+                    match catch(|| s.build_bytes(&env)) {
+                        Ok(Ok((_, bytes))) => {
+                            if oracle_true_digests("typed-sources", &bytes, idx, &case, &mut acc) {
+                                acc.nontrivial += 1;
+                                acc.count(kname);
+                            }
+                        }
+                        Ok(Err(_)) => acc.count("build refused (not judged)"),
+                        Err(p) => acc.viol(panic_violation("typed-sources", &p, case()).rank(idx)),
+                    }
+                }
+            }
+        }
+    }
+    // (b) signing an object whose signature header records a header digest that is not (or no longer) true
+    let a = crate::corpus::one_file().build(&env).unwrap_or_else(|e| crate::ctx::machinery(&format!("c08 stale: {}", e)));
+    let mut rich = crate::corpus::rich();
+    rich.compression = Comp::Gzip(6);
+    let b = rich.build(&env).unwrap_or_else(|e| crate::ctx::machinery(&format!("c08 stale: {}", e)));
+    let asset = rpm::Package::open(ctx.asset("test_assets/ima_signed.rpm")).unwrap_or_else(|e| crate::ctx::machinery(&format!("asset: {}", e)));
+    let mut starts: Vec<(&str, rpm::Package)> = vec![];
+    {
+        let mut p = a.clone();
+        p.metadata.header = b.metadata.header.clone();
+        p.content = b.content.clone();
+        starts.push(("built package whose header and content were replaced through the public fields", p));
+        let mut p = b.clone();
+        p.metadata.signature = a.metadata.signature.clone();
+        starts.push(("built package carrying another package's signature header", p));
+        let mut p = asset.clone();
+        p.metadata.signature = a.metadata.signature.clone();
+        starts.push(("rpmbuild asset carrying a foreign signature header", p));
+        starts.push(("rpmbuild asset as shipped", asset.clone()));
+        starts.push(("built package as built", a.clone()));
+    }
+    for (si, (sname, start)) in starts.iter().enumerate() {
+        for key in crate::keys::FAST_KEYS {
+            for op in ["sign", "sign_with_timestamp", "clear_signatures", "sign twice", "clear then sign"] {
+                acc.evals += 1;
+                let case = || json!({"start": sname, "key": key.name(), "operation": op});
+                let signer = env.signer(key);
+                let r = catch(|| {
+                    let mut p = start.clone();
+                    match op {
+                        "sign" => p.sign(&signer)?,
+                        "sign_with_timestamp" => p.sign_with_timestamp(&signer, 1_600_000_000u32)?,
+                        "clear_signatures" => p.clear_signatures()?,
+                        "sign twice" => {
+                            p.sign(&signer)?;
+                            p.sign_with_timestamp(&signer, 1_600_000_000u32)?
+                        }
+                        _ => {
+                            p.clear_signatures()?;
+                            p.sign(&signer)?
+                        }
+                    }
+                    write_pkg(&p).map_err(|_| rpm::Error::NoSignatureFound)
+                });
+                let rank = 10_000 + (si * 100) as u64;
+                match r {
+                    Err(pn) => acc.viol(panic_violation("stale-then-sign", &pn, case()).rank(rank)),
+                    Ok(Err(e)) => acc.viol(Violation::new("stale-then-sign", format!("{} failed: {}", op, e), case()).sig("clause", "sign-fails").rank(rank)),
+                    Ok(Ok(bytes)) => {
+                        if oracle_true_digests("stale-then-sign", &bytes, rank, &case, &mut acc) {
+                            acc.nontrivial += 1;
+                            acc.count(op);
+                        }
+                    }
+                }
+            }
+        }
+    }
+    SubReport::new(
+        "typed-and-stale",
+        "A",
+        &format!("(a) an entry of each kind {:?} × source with 0 / 5 / 4097 bytes × compression {{none, gzip, default}} × standard / large-file layout: every recorded digest is the digest of what is archived for that entry; (b) {} objects whose recorded header digest is stale or foreign (public fields replaced) × 4 keys × {{sign, sign_with_timestamp, clear_signatures, sign twice, clear then sign}}: afterwards all recorded digests are true", kinds.iter().map(|k| k.0).collect::<Vec<_>>(), starts.len()),
+        acc,
+    )
+}
+
 pub fn run(ctx: &Ctx) -> i32 {
     let s1 = writer_sub(ctx);
+    let s_ts = typed_and_stale_sub(ctx);
     let s_sign = signers_sub(ctx);
     let s_rw = source_rewrite_sub(ctx);
     let s2 = crate::corpus::run_corpus(ctx, "corpus", "oracle: header SHA-256, payload digest, alternate (uncompressed) payload digest and per-file digests recomputed after independent decompression", &|sub, it, rank, acc| {
@@ -529,14 +644,14 @@ pub fn run(ctx: &Ctx) -> i32 {
         }
     }));
     let s3 = SubReport::new("large-files", "A", &format!("{} builds with one file of 200 KB / 1 MiB (thorough: 2 and 8 MiB), compressible and incompressible, with every compressor incl. the default zstd-19 — sizes at which the encoders accept only part of a buffer; same four digest oracles", big.len()), b);
-    for s in [&s1, &s2, &s3, &s_sign, &s_rw] {
+    for s in [&s1, &s2, &s3, &s_sign, &s_rw, &s_ts] {
         if s.acc.nontrivial == 0 {
             crate::ctx::machinery(&format!("sub-check {} judged nothing: vacuous", s.name));
         }
     }
     ctx.finish(
         "fault_enumeration",
-        vec![s1, s2, s3, s_sign, s_rw],
+        vec![s1, s2, s3, s_sign, s_rw, s_ts],
         &[
             "the decompressors (flate2, zstd, liblzma) and RustCrypto sha2 are the crates the library uses itself; the cpio reader and header decoder are the harness's own",
             "file sizes beyond 1 MiB (quick) / 8 MiB (thorough) are not covered",
